@@ -1,5 +1,14 @@
 /-
-  C18 — property theorems (placeholder: no theorem yet, the property is not claimed).
+  C18 — curved primitives. This root file holds no theorem of its own: the property theorems are in
+  the files of `EG/Props/C18/` (every file there is built and audited by `./check C18`):
+    Circle.lean       half-pixel band of `Circle::contains`, symmetry, contiguous rows/columns, touches
+                      the four sides of its bounding box, circle = ellipse with equal axes
+    Ellipse.lean      half-pixel band of `Ellipse::contains`, symmetry, contiguous rows/columns
+    RoundedRect.lean  `confine` fits the radii, zero radii = rectangle, half-side radii = ellipse,
+                      corner band, contiguous rows/columns
+    Sector.lean       sectors / arcs: in the circle, full sweep = circle / inside ring, plane-sector
+                      membership given the hook's normals
+  Sub-claims that are not proved are the `-- [V]` lines of those files.
 -/
 import EG.Basic.Core
 namespace EG.C18
